@@ -1,4 +1,5 @@
 import ArgMapper.Props.C20
+import ArgMapper.Proofs.TarjanTop
 /-!
 # C20 (continued) — Tarjan's algorithm as written in `tarjan.go` is exact
 
@@ -16,6 +17,7 @@ variable {α : Type} [DecidableEq α]
 
 /-- **C20_scc_exact** -/
 theorem tarjan_exact (g : AGraph α) (hwf : g.WF) : IsSccPartition g (stronglyConnected g) := by
-  sorry
+  obtain ⟨h1, h2, h3, h4⟩ := Tarjan.stronglyConnected_spec hwf
+  exact ⟨h1, h2, h3, fun c hc u hu v _ => h4 c hc u hu v⟩
 
 end ArgMapper.C20
